@@ -1,5 +1,31 @@
-(* STUB: Impl model of bert.rs -- to be written *)
-From Coq Require Import NArith List.
-From ACPI Require Import Lib.Bytes Lib.Sx Lib.Machine Impl.Checksum Impl.Table Impl.Fields Impl.Run.
+(* Impl model of bert.rs *)
+From Coq Require Import NArith List Bool.
+From ACPI Require Import Lib.Bytes Lib.Sx Lib.Machine Impl.Checksum Impl.Table Impl.Fields Impl.Run Impl.Madt.
 Import ListNotations.
-Definition bert_case (md : mode) (c : sx) : list ev := [EvPanic].
+Open Scope N_scope.
+
+(* struct BERT { header: TableHeader, error_region_length: U32, error_region_base: U64 } (packed);
+   header.length and header.checksum are kept beside the constant header fields *)
+Record bert := { be_hdr : hdr; be_len : N; be_cks : N; be_rlen : N; be_rbase : N }.
+
+(* as_bytes() *)
+Definition bert_bytes (b : bert) : list N :=
+  hdr_bytes (be_hdr b) (be_len b) (be_cks b) ++ d4 (be_rlen b) ++ q8 (be_rbase b).
+
+(* BERT::new: header { "BERT", length = 36 + 12, revision 1, checksum 0 }; cksum.append(bert.as_bytes());
+   bert.header.checksum = cksum.value() *)
+Definition bert_new (c : sx) : option bert :=
+  match c with
+  | SL [o; t; r; SA rlen; SA rbase] =>
+      do h <- sx_hdr [66; 69; 82; 84] 1 o t r;          (* "BERT" *)
+      let b0 := {| be_hdr := h; be_len := 36 + 12; be_cks := 0; be_rlen := rlen; be_rbase := rbase |} in
+      let ck := ck_append 0 (bert_bytes b0) in
+      Some {| be_hdr := h; be_len := 36 + 12; be_cks := ck_value ck; be_rlen := rlen; be_rbase := rbase |}
+  | _ => None
+  end.
+
+(* no public mutating operation *)
+Definition bert_step (md : mode) (b : bert) (o : sx) : option (bert * list ev) := None.
+
+Definition bert_case (md : mode) (c : sx) : list ev :=
+  run_history (fun b => Some (bert_bytes b)) (bert_step md) bert_new c.
